@@ -121,21 +121,26 @@ def r2(ctx: Ctx) -> None:
         if name == "get_size":
             pass
         ctx.ob("C20.R2", m, f"{name}: {code} -> FileNotFoundError, else re-raise", None, ok, detail, text=name)
-    ex_m = s3.methods["exists"]
-    okx = False
-    detail = ""
-    for nf in _closure_for(ctx, ex_m):
-        g = ctx.cfg(nf)
-        for hn in handler_nodes(ctx, nf):
-            exx = handler_exits(ctx, nf, hn)
-            brs = [b for b in g.nodes if b.kind == "branch" and in_handler(b, hn.ast) and "404" in b.text]  # type: ignore[arg-type]
-            rer = any(r.raised == "reraise" for r in exx["raise"])
-            okx = bool(brs) and rer and not exx["return"]
-            detail = f"branch on 404: {bool(brs)}; other errors re-raised: {rer}"
-    ctx.ob("C20.R2", ex_m, "exists: 404 -> False, everything else raises", None, okx, detail, text="exists")
-    osk = s3.methods.get("open_seekable")
-    ok = osk is not None and bool(ctx.calls(osk, name="get_size"))
-    ctx.ob("C20.R2", osk or ex_m, "open_seekable learns the size through get_size (not-found mapping included)", None, ok, "", text="open_seekable")
+    for s3 in family(ctx, s3_base):
+        ex_m = s3.methods.get("exists")
+        if ex_m is None:
+            if s3 is s3_base:
+                raise AnalysisError("S3StorageBackend.exists vanished")
+            continue
+        okx = False
+        detail = ""
+        for nf in _closure_for(ctx, ex_m):
+            g = ctx.cfg(nf)
+            for hn in handler_nodes(ctx, nf):
+                exx = handler_exits(ctx, nf, hn)
+                brs = [b for b in g.nodes if b.kind == "branch" and in_handler(b, hn.ast) and "404" in b.text]  # type: ignore[arg-type]
+                rer = any(r.raised == "reraise" for r in exx["raise"])
+                okx = bool(brs) and rer and not exx["return"]
+                detail = f"branch on 404: {bool(brs)}; other errors re-raised: {rer}"
+        ctx.ob("C20.R2", ex_m, "exists: 404 -> False, everything else raises", None, okx, detail, text="exists")
+        osk = s3.methods.get("open_seekable")
+        ok = osk is not None and bool(ctx.calls(osk, name="get_size"))
+        ctx.ob("C20.R2", osk or ex_m, "open_seekable learns the size through get_size (not-found mapping included)", None, ok, "", text="open_seekable")
 
 
 def _under_retry(ctx: Ctx, f: FunctionInfo, depth: int = 0, seen: Optional[Set[str]] = None) -> bool:
@@ -269,24 +274,15 @@ def r7(ctx: Ctx, rid: str = "C20.R7") -> None:
              "cache that a write through another method - or another process - can leave stale)", 2)
     for ci in [c2 for cn in ("LocalStorageBackend", "S3StorageBackend") for c2 in family(ctx, ctx.prog.cls(f"{SB}.{cn}"))]:
         cname = ci.name
+        if not ci.methods:
+            continue  # a flavour that only combines its bases
         bad = []
+        from .common import state_writes
         for m in ci.methods.values():
             if m.name == "__init__":
                 continue
-            fns = [m] + list(m.nested.values())
-            for f in fns:
-                for n in ctx.cfg(f).nodes:
-                    if n.kind == "stmt" and isinstance(n.ast, (ast.Assign, ast.AugAssign, ast.AnnAssign)):
-                        tg = n.ast.targets if isinstance(n.ast, ast.Assign) else [n.ast.target]
-                        for t in tg:
-                            base = t.value if isinstance(t, ast.Subscript) else t
-                            if isinstance(base, ast.Attribute) and isinstance(base.value, ast.Name) and base.value.id == "self":
-                                bad.append(f"{f.file}:{n.lineno} {n.text[:60]}")
-                    if n.kind == "call" and isinstance(n.ast, ast.Call) and isinstance(n.ast.func, ast.Attribute) \
-                            and n.ast.func.attr in ("setdefault", "update", "append", "add", "pop", "clear") \
-                            and isinstance(n.ast.func.value, ast.Attribute) and isinstance(n.ast.func.value.value, ast.Name) \
-                            and n.ast.func.value.value.id == "self":
-                        bad.append(f"{f.file}:{n.lineno} {n.text[:60]}")
+            for n, what in state_writes(ctx, m):
+                bad.append(f"{m.file}:{n.lineno} {what} in `{n.text[:60]}`")
         ctx.ob(rid, ci.methods.get("__init__") or next(iter(ci.methods.values())), f"{cname} keeps no mutable per-instance state", None, not bad,
                "results always reflect the store (the other backend has no cache either)", witness=bad[:6] or None, text=cname)
 
